@@ -66,7 +66,7 @@ def monomial_integral(S, a, b):
 
 
 class ESRun:
-    def __init__(self, D, lmin, lmax, version=0, nrbe=1, auto=False, single=False, boundary=True, a=None, b=None, margin=None, peak=None):
+    def __init__(self, D, lmin, lmax, version=0, nrbe=1, auto=False, single=False, boundary=True, a=None, b=None, margin=None, peak=None, int_domain=False):
         SA, TG, Integration, EC, _ = _lib()
         self.D, self.lmin, self.lmax0 = D, lmin, lmax
         self.a = np.array([0.0] * D if a is None else a, dtype=float)
@@ -75,7 +75,9 @@ class ESRun:
         self.natural = peak is not None
         self.grid = TG(a=self.a, b=self.b, boundary=boundary)
         self.op = Integration(f=self.f, grid=self.grid, dim=D)
-        self.combi = SA(self.a, self.b, operation=self.op, version=version, number_of_refinements_before_extend=nrbe,
+        # the library accepts domain bounds given as integers (lists or integer arrays); hand them over in the type requested
+        a_arg, b_arg = (np.array([int(x) for x in self.a]), np.array([int(x) for x in self.b])) if int_domain else (self.a, self.b)
+        self.combi = SA(a_arg, b_arg, operation=self.op, version=version, number_of_refinements_before_extend=nrbe,
                         automatic_extend_split=auto, split_single_dim=single)
         if margin is not None:
             self.combi.margin = margin
@@ -286,7 +288,7 @@ def edge_replay(rep, g, c, traces, maxedges, rng):
 
 def random_history(rng, c, steps):
     run = ESRun(c['D'], c['lmin'], c['lmax'], version=c['version'], nrbe=c['nrbe'], auto=c.get('auto', False), single=c.get('single', False),
-                boundary=c.get('boundary', True), a=c.get('a'), b=c.get('b'), margin=c.get('margin'), peak=c.get('peak'))
+                boundary=c.get('boundary', True), a=c.get('a'), b=c.get('b'), margin=c.get('margin'), peak=c.get('peak'), int_domain=c.get('int_domain', False))
     run.evaluate()
     evs = [observe(run)]
     script = []
